@@ -38,7 +38,7 @@ def main():
     for uname in units:
         if uname.startswith('kani:'):
             from vx import kani
-            kr = kani.run()
+            kr = kani.run(group=uname.split(':', 1)[1])
             cov = ev['coverage']
             cov['units'][uname] = dict(files=[dict(file='kani/src/lib.rs', status=kr['status'], verified=len(kr['harnesses']) - len(kr['failed']), wall_s=round(kr['wall'], 1),
                                                    backend='kani 0.68 / cbmc 6.11 (bit-precise, full input domain, unwinding assertions on)', reason=kr['reason'][:500],
